@@ -120,7 +120,7 @@ class CFG:
             fr = frames[i]
             if fr.kind == "finally":
                 # run a copy of the finalbody, then keep going outward
-                key = (kind, raised if kind == "exc" else None)
+                key = (kind, raised if kind in ("exc", "inline_exit") else None)
                 if key not in fr.copies:
                     j = self._new("join", None, fr.stmt)
                     saved = self._frames
@@ -141,6 +141,9 @@ class CFG:
                         # bare except catches everything
                         cur = []
                         break
+            elif fr.kind == "inline" and kind == "inline_exit" and fr.block_id == raised:
+                fr.exits.extend(cur)
+                return
             elif fr.kind == "loop" and kind in ("break", "continue"):
                 if kind == "break":
                     fr.breaks.extend(cur)
@@ -204,6 +207,13 @@ class CFG:
             done = [(it.id, ("iter", "done"))]
             out = self._block(st.orelse, done) if st.orelse else done
             return out + fr.breaks
+        if isinstance(st, ast.With) and getattr(st, "_inline_block", None) is not None:
+            # body of an expanded helper (sa.normalise): `break` nodes carrying _inline_exit leave it
+            fr = _Frame("inline", block_id=st._inline_block, exits=[])
+            self._frames.append(fr)
+            out = self._block(st.body, preds)
+            self._frames.pop()
+            return out + fr.exits
         if isinstance(st, (ast.With, ast.AsyncWith)):
             cur = preds
             for item in st.items:
@@ -232,6 +242,11 @@ class CFG:
                 raised = "<reraise>"
             n.extra["raised"] = raised
             self._abrupt([(n.id, ("exc",))], "exc", raised if raised != "<reraise>" else None)
+            return []
+        if isinstance(st, ast.Break) and getattr(st, "_inline_exit", None) is not None:
+            n = self._new("stmt", st, st)
+            self._connect(preds, n.id)
+            self._abrupt([(n.id, None)], "inline_exit", st._inline_exit)
             return []
         if isinstance(st, ast.Break):
             n = self._new("stmt", st, st)
